@@ -55,6 +55,9 @@ void ref_murmur3_x64_128(const void *data, size_t len, uint64_t seed, uint8_t ou
 /* multi-hash (mh_sha1: 5 words, mh_sha256: 8 words); digest returned as native uint32 words */
 void ref_mh_sha1(const uint8_t *data, size_t len, uint32_t digest[5]);
 void ref_mh_sha256(const uint8_t *data, size_t len, uint32_t digest[8]);
+/* length field = (len + len_offset) * 8; len_offset is a multiple of 1024 */
+void ref_mh_ext(int is256, const uint8_t *data, size_t len, uint64_t len_offset, uint32_t *digest);
+void ref_murmur3_x64_128_ext(const void *data, size_t len, uint64_t seed, uint64_t len_offset, uint8_t out[16]);
 
 /* rolling hash by definition, from a pinned copy of the table */
 extern const uint64_t ref_rolling_table1[256];
